@@ -51,6 +51,10 @@ def run(cx):
         # from the Ok store, the return is reached only through Range::contains(window, now) (else the Err store overwrites it)
         TIME = rf'^Range::contains\({VMB}@Ok\.0\.2,\^arg4\)$'
         for o in okset:
+            if cx.has_guard(o, TIME):
+                # the Ok value is only built inside the window
+                cx.oblige('C13.G2', True, sample={'fn': shorten(f.path), 'site': o.key(), 'loc': o.loc, 'guard': 'now-within-window', 'holds': True})
+                continue
             cx.must_pass('C13.G2', f, good, via_blocks={e.bb for e in errset}, via_edge=TIME, start_blocks=[o.bb], what='now-within-window-or-NotAuth')
         bad = [s for s in rets if s not in good]
         for s in bad:
